@@ -303,3 +303,22 @@ Proof.
     destruct (k17_query_space (strip_tnl Hc)); [discriminate Hk0|].
     destruct (k17_split_escape Rc); [discriminate Hk0|]. split; reflexivity.
 Qed.
+
+(* ---- what separates outside_known_is_fetch from C17_statement: that the scheme of the URL the parser
+   returns is the scheme text parse_scheme read (needed only to turn "url_is_data u" into "parse_scheme
+   read data"; for opaque paths it is part of parse_opaque_explicit, for hierarchical URLs it is a fact
+   about the authority / path parsers that is not proved here) ---- *)
+Definition scheme_of_parse : Prop :=
+  forall (dbg : bool) (hp ho : list N -> result host) (hd : host -> list N) (s sch rem : list N) (u : url),
+    usv_list s ->
+    parse_scheme CUrlParser (input_new_trim_c0 s) = Some (sch, rem) ->
+    parse_url dbg hp ho hd None None s = POk u -> url_is_data u = true -> sch = s_data.
+
+Theorem statement_modulo_scheme : scheme_of_parse -> C17_statement.
+Proof.
+  intros G dbg hp ho hd s u Hs Hu Hd Hk.
+  destruct (parse_scheme CUrlParser (input_new_trim_c0 s)) as [[sch rem]|] eqn:Hp.
+  - pose proof (G dbg hp ho hd s sch rem u Hs Hp Hu Hd) as ->.
+    exact (outside_known_is_fetch dbg hp ho hd s rem u Hs Hp Hu Hk).
+  - unfold parse_url in Hu. rewrite Hp in Hu. discriminate Hu.
+Qed.
